@@ -1498,7 +1498,9 @@ class FlowIR(object):
                     if ref_str not in translation_map:
                         translation_map[ref_str] = []
 
-                    translation_map[ref_str].append(rewritten)
+                    # VV: a reference which is given in both of its spellings must not be counted twice
+                    if rewritten not in translation_map[ref_str]:
+                        translation_map[ref_str].append(rewritten)
 
         def absolute_reference_length(ref):
             # type: (str) -> int
